@@ -3,7 +3,10 @@
 (* enumerates every case                                                     *)
 (*   guise : exported name x guise (plain, _mks, _cgs) x configuration x     *)
 (*           comparison route (raw magnitude, .to(), in_base, cgs round      *)
-(*           trip, ==, value ratio _cgs/_mks)                                *)
+(*           trip, ==, value ratio _cgs/_mks, the shown number re-entered    *)
+(*           with the shown unit text, the tabulated guise / the guise       *)
+(*           itself converted to the shown unit, the default constant        *)
+(*           expressed in the configuration's unit system)                   *)
 (*   rel   : defining relation x configuration x guise family                *)
 (*   unit  : name that is also a unit name x configuration                   *)
 (*   lit   : reference quantity (literature value, uncertainty class)        *)
@@ -16,16 +19,24 @@ VARIABLE c
 
 NoCase == [kind |-> "init", a |-> 0, g |-> "", cfg |-> 0, route |-> ""]
 SelCfg == IF CfgSel = "all" THEN CfgIdx ELSE {k \in CfgIdx : Cfgs[k].core}
-RoutesOf(g) == IF g = "cgs" THEN {"raw", "to", "base", "cgsmks", "eq", "ratio"} ELSE {"raw", "to", "base", "cgsmks", "eq"}
+AllRoutes == {"raw", "to", "base", "cgsmks", "eq", "ratio", "shown", "tosys", "idem", "defbase"}
+RoutesOf(g) == CASE g = "cgs" -> AllRoutes \ {"defbase"}
+                 [] g = "mks" -> AllRoutes \ {"defbase", "ratio"}
+                 [] OTHER -> AllRoutes \ {"ratio"}
+\* the _mks / _cgs guises are built without the unit system: in the TLC-generated unit-system configurations only the
+\* plain guise depends on the system (the other guises are covered by the registry configurations)
+GuisesOf(k) == IF Cfgs[k].gensys THEN {"plain"} ELSE Guises
 UnitNames == {n \in NameIdx : Names[n].isunit}
 RelGuises(r) == IF Rels[r].form = "gauss" THEN {"cgs"} ELSE {"plain", "mks"}
 Cases ==
-  {[kind |-> "guise", a |-> n, g |-> g, cfg |-> k, route |-> rt] : n \in NameIdx, g \in Guises, k \in SelCfg, rt \in {"raw", "to", "base", "cgsmks", "eq", "ratio"}}
+  {[kind |-> "guise", a |-> n, g |-> g, cfg |-> k, route |-> rt] : n \in NameIdx, g \in Guises, k \in SelCfg, rt \in AllRoutes}
   \cup {[kind |-> "rel", a |-> r, g |-> g, cfg |-> k, route |-> "rel"] : r \in RelIdx, g \in Guises, k \in SelCfg}
   \cup {[kind |-> "unit", a |-> n, g |-> "plain", cfg |-> k, route |-> "unit"] : n \in UnitNames, k \in SelCfg}
   \cup {[kind |-> "lit", a |-> q, g |-> "plain", cfg |-> 1, route |-> "lit"] : q \in QIdx}
-Wanted(k) == CASE k.kind = "guise" -> k.route \in RoutesOf(k.g) /\ (Bare(k.a) => k.g = "plain")
-               [] k.kind = "rel" -> k.g \in RelGuises(k.a)
+\* the TLC-generated edited registries (thorough tier) are compared through a representative subset of the routes
+CfgRoutes(k) == IF Cfgs[k].genmod THEN {"raw", "to", "cgsmks", "eq", "shown", "tosys"} ELSE AllRoutes
+Wanted(k) == CASE k.kind = "guise" -> k.route \in RoutesOf(k.g) \cap CfgRoutes(k.cfg) /\ (Bare(k.a) => (k.g = "plain" /\ k.route # "defbase")) /\ k.g \in GuisesOf(k.cfg)
+               [] k.kind = "rel" -> k.g \in RelGuises(k.a) /\ k.g \in GuisesOf(k.cfg)
                [] OTHER -> TRUE
 
 Init == c = NoCase
